@@ -189,7 +189,7 @@ class SSeq(object):
         return 'SSeq(%s,n=%s)' % (self.kind, self.n)
 
 
-LAZY_BYTE_FACTS = True
+LAZY_BYTE_FACTS = False
 _PENDING_FACTS = []          # range facts of byte-valued base sequences for index terms used since the last solver call
 
 
